@@ -264,6 +264,10 @@ def run(ctx):
     AC.install()
     AC.HOOKS[:] = [_hook]
     rng = ctx.rng
+    from rv.props import concurrent_jobs
+
+    concurrent_jobs.run_some(ctx, "C18", quick=3, thorough=12)        # the same calls from a thread pool (rv/core/threads.py)
+    ctx.must_monitors.append("concurrent_calls")
     ctx.rule = ("(collection type, graph, audio dir A as str / Path / trailing slash / None, load dir B same / other / None, recordings inside / outside A); "
                 "non-trivial = >= 2 recordings in different sub-directories; distinct = distinct case spec")
     ctx.assumptions += ["paths are compared as spelled (lexically): a '..' hop below the audio directory and a symlinked sub-directory are part of the spelling", "a failed save must leave the target path absent (or byte-identical to a pre-existing file)"]
